@@ -47,7 +47,7 @@ template <> struct ImplicitIn<false> {
 template <typename T, uint64_t N, uint64_t D, bool WithIn>
 struct Inst {
     i128 lo, hi, mod;
-    long long swept = 0, mismatches = 0, nontrivial = 0, logged = 0;
+    long long swept = 0, mismatches = 0, cleared_mismatches = 0, nontrivial = 0, logged = 0;
     int ubchk = 0;
     Opts o;
     Rng rng;
@@ -100,7 +100,10 @@ struct Inst {
         if (nt) ++nontrivial;
         if (bad) {
             ++mismatches;
-            if (mismatches <= 40) log("mismatch", x, ov, tr, lossy, hasres, res, ub, hasin, inres, asres, covf, ctrunc);
+            // mismatches in which the library cleared the conversion (the C03 side) have their own budget: they must not be crowded
+            // out by the usually much larger number of checker-only disagreements
+            if (!lossy) ++cleared_mismatches;
+            if (mismatches <= 40 || (!lossy && cleared_mismatches <= 40)) log("mismatch", x, ov, tr, lossy, hasres, res, ub, hasin, inres, asres, covf, ctrunc);
         } else if (boundary) {
             log("boundary", x, ov, tr, lossy, hasres, res, ub, hasin, inres, asres, covf, ctrunc);
         } else if ((rng.next() >> (64 - o.sample_shift)) == 0) {
